@@ -104,7 +104,7 @@ def run(pid: str, tier: str, fn: Callable[[str], Result], replay: Optional[str] 
         try:
             from .selftest.run import run as selftest_run
             st = selftest_run([pid], jobs=int(os.environ.get("JSTAT_JOBS", "16")))
-            unexpected = [r for r in st if r["status"] not in ("caught", "silent")]
+            unexpected = [r for r in st if r["status"] not in ("caught", "silent", "fail-closed")]
             res.extra["selftest"] = {
                 "what": "scratch variants of the current tree with one AST-computed edit each; breaking variants must be "
                         "reported with the expected rule, behaviour-preserving twins must stay silent",
